@@ -1752,7 +1752,7 @@ impl Writer {
 }
 
 // Verification hook: read-only view of the matched set.
-#[cfg(rustdds_verif)]
+#[cfg(all(rustdds_verif, any(not(rustdds_verif_only), rustdds_verif_c11)))]
 impl Writer {
   pub(crate) fn verif_matched_readers(&self) -> Vec<GUID> {
     self.readers.keys().copied().collect()
@@ -1760,7 +1760,7 @@ impl Writer {
 }
 
 // Verification hooks: fire timed events without the wall-clock timer, read-only state views.
-#[cfg(rustdds_verif)]
+#[cfg(all(rustdds_verif, any(not(rustdds_verif_only), rustdds_verif_c04, rustdds_verif_c20)))]
 impl Writer {
   /// Runs the handler of one timed event exactly as handle_timed_event would, without re-arming.
   pub(crate) fn verif_fire(&mut self, e: TimedEvent) {
@@ -1798,7 +1798,7 @@ impl Writer {
 }
 
 // Verification hook: read-only view of a reader proxy.
-#[cfg(rustdds_verif)]
+#[cfg(all(rustdds_verif, any(not(rustdds_verif_only), rustdds_verif_c06)))]
 impl Writer {
   /// (all_acked_before, unsent_changes, frags_requested)
   #[allow(clippy::type_complexity)]
@@ -1902,7 +1902,7 @@ mod tests {
 
 // Verification hooks (C02): fire the timed-event handlers without wall-clock timers, and
 // read-only views of the history bounds and of one reader proxy.
-#[cfg(rustdds_verif)]
+#[cfg(all(rustdds_verif, any(not(rustdds_verif_only), rustdds_verif_c02)))]
 impl Writer {
   pub(crate) fn verif_c02_repair_tick(&mut self, to_reader: GUID) {
     self.handle_repair_data_send(to_reader);
